@@ -327,7 +327,8 @@ func runReqCoupd(c *core.Ctx) {
 		// fresh values
 		okVals := got["eose"] != nil && strings.HasPrefix(an.PathOf(got["eose"].Value), "make:slice") &&
 			got["seen"] != nil && strings.HasPrefix(an.PathOf(got["seen"].Value), "make:map") &&
-			got["matcher"] != nil && strings.Contains(an.PathOf(got["matcher"].Value), "NewReqFiltersEventLimitMatcher(p:"+set.Params[2].Name()+")") &&
+			got["matcher"] != nil && (strings.Contains(an.PathOf(got["matcher"].Value), "NewReqFiltersEventLimitMatcher(p:"+set.Params[2].Name()+")") ||
+				matcherFromFilters(P, got["matcher"].Value, set.Params[2])) &&
 			got["lastEvent"] != nil && an.IsNilConst(got["lastEvent"].Value)
 		c.Check(len(miss) == 0 && okVals, nil, fname(c, set), "set(4 maps)", P.Pos(set.Pos()), "a REQ (re)initialises all four per-subscription maps together: fresh EOSE flags, no last event, empty seen-set, a matcher from the REQ's filters",
 			fmt.Sprintf("a REQ does not reset all four per-subscription maps together (missing: %v, fresh values: %v): state of a previous use of the id leaks into the new subscription", miss, okVals))
@@ -871,7 +872,7 @@ func runEoseGate(c *core.Ctx) {
 						e2 = true
 					}
 				}
-			} else if tps, ok := an.ResultPaths(host, 0, true); ok && len(tps) > 0 && len(mkOcc[0].Chain) > 0 {
+			} else if tps, ok := an.ResultPaths(host, boolResultIdx(host), true); boolResultIdx(host) >= 0 && ok && len(tps) > 0 && len(mkOcc[0].Chain) > 0 {
 				// the helper answers "forward" only with first=false and second=true …
 				e1 = an.AllHave(tps, func(g an.Cond) bool { return g.V == ssa.Value(first) && !g.True })
 				e2 = an.AllHave(tps, func(g an.Cond) bool { return g.V == ssa.Value(second) && g.True })
@@ -879,7 +880,12 @@ func runEoseGate(c *core.Ctx) {
 				fwdOnTrue := false
 				top := mkOcc[0].Chain[0]
 				for _, g := range an.Guards(fn, ret) {
-					if v, pol := stripNot(g.V, g.True); v == ssa.Value(top) && pol {
+					v, pol := stripNot(g.V, g.True)
+					if v == ssa.Value(top) && pol {
+						fwdOnTrue = true
+					}
+					// (the verdict as one of several results: `summary, ok := ss.setEOSE(id, idx); if !ok { return nil }`)
+					if ex, isEx := v.(*ssa.Extract); isEx && ex.Tuple == ssa.Value(top) && ex.Index == boolResultIdx(host) && pol {
 						fwdOnTrue = true
 					}
 				}
@@ -1754,4 +1760,30 @@ func envelopeRecvBlocks(root, disp *ssa.Function) map[*ssa.BasicBlock]bool {
 		}
 	}
 	return out
+}
+
+// boolResultIdx: the index of fn's verdict — its only result if that is a bool, or the last one of
+// several if that is a bool (`(summary, ok)`); -1 otherwise.
+func boolResultIdx(fn *ssa.Function) int {
+	res := fn.Signature.Results()
+	if res.Len() == 0 {
+		return -1
+	}
+	if bt, ok := res.At(res.Len()-1).Type().Underlying().(*types.Basic); ok && bt.Kind() == types.Bool {
+		return res.Len() - 1
+	}
+	return -1
+}
+
+// matcherFromFilters: v is the result of the list-matcher constructor, or of the variant it delegates
+// to, called with the REQ's filters as first argument (further arguments configure the relay's
+// limits, not the subscription).
+func matcherFromFilters(P *core.Program, v ssa.Value, filters *ssa.Parameter) bool {
+	call, ok := an.Unwrap(v).(*ssa.Call)
+	if !ok || len(call.Call.Args) == 0 || call.Call.Args[0] != ssa.Value(filters) {
+		return false
+	}
+	ctor := P.Func(P.Root, "NewReqFiltersEventLimitMatcher")
+	g := an.StaticCallee(&call.Call)
+	return ctor != nil && g != nil && (g == ctor || g == listCtorBody(P, ctor))
 }
